@@ -70,13 +70,15 @@ pub fn analyze(text: &str, index: &LineIndex, resolver: &dyn ModuleResolver) -> 
     let mut program = Program::new();
     let mut module_cache = ModuleCache::new();
     let mut recorder = Recorder::default();
+    // The top-level parameter is nil (a type id; `NIL` itself is the nil *tuple* id).
+    let nil_type_id = program.register_type(quiver_core::types::Type::Tuple(NIL));
     let result = Compiler::compile(
         ast,
         &HashMap::new(),
         &mut module_cache,
         resolver,
         &mut program,
-        NIL,
+        nil_type_id,
         &process_types,
         builtins(),
         Some(&mut recorder),
